@@ -9,6 +9,7 @@ from ..vra.values import *
 from ..vra.stdsum import split_enum
 from ..vra.types import INT_TYS
 from .grammar import *
+from ..vra.stdsum import struct_eq
 from ..trace import suffix_parser_contract
 
 TLF = "parser::tlf::TypeLengthField"
@@ -270,6 +271,13 @@ def check_time(ctx, F, A, X):
                 secs = val.pay[p["st"].const_of(val.disc)][0] if isinstance(val, VEnum) else None
                 d = ip.tab.defn(secs.lin.single()[0]) if isinstance(secs, VInt) and secs.lin.single() else None
                 good = good and (isinstance(secs, VInt) and (d is None or d[0] == "from_bytes" and d[1] == "be"))
+                if not good and len(evs) == 1 and self_type_of(evs[0]["key"]) == "u32" and evs[0]["key"].endswith("::parse_with_tlf"):
+                    # the same bytes read by the u32 parser itself: <u32>::parse_with_tlf(input, the Unsigned(4) TLF); what that parser
+                    # returns for this TLF is the 4-byte big-endian number (R-C12-INT)
+                    targ = [a for a in evs[0]["ev"]["args"] if isinstance(a, VRef)]
+                    same_tlf = bool(targ) and struct_eq(ip, p["st"], ip.read_raw(p["st"], targ[0].root, targ[0].steps), tlfv) == ("c", True)
+                    good = evs[0]["input"] == p["args"][0] and okp[0] == evs[0]["rest"] and same_tlf and isinstance(okp[1], VEnum) \
+                        and find_in(okp[1], evs[0]["val"])
                 ok_wa = ok_wa or good
                 if not good:
                     bad.append("workaround path malformed")
